@@ -449,6 +449,10 @@ bool Parser::parseCompoundStatement_AtFirst(StatementSyntax*& stmt,
             default: {
                 auto tkIdx_AtStmt = curTkIdx_;
                 if (!parseStatement(innerStmt, stmtCtx)) {
+                    // No recovery within a speculative parse (of a statement
+                    // expression): that fails, with its diagnostics disabled.
+                    if (willBacktrack())
+                        return false;
                     noteFailedParse(tkIdx_AtStmt);
                     skipTo(SyntaxKind::CloseBraceToken);
                     continue;
